@@ -1087,7 +1087,8 @@ def rule_map_table(c, R, nsm, sm):
             tgt, arr = _callee(n)["object"], a[0]
         if tgt is not None and JF.text(tgt).endswith("_mappings") and arr.get("type") == "ArrayExpression":
             pushes.append((n, [JF.unparen(e["expression"]) if e else None for e in arr.get("elements", [])]))
-    full = [(n, el) for n, el in pushes if len(el) == 6]
+    # [line, column, source, original line, original column] and, optionally, the name
+    full = [(n, el) for n, el in pushes if len(el) in (5, 6)]
     c.floor(R, "segments stored by the map parser", len(full), 1)
     if not full:
         return
@@ -1102,7 +1103,7 @@ def rule_map_table(c, R, nsm, sm):
             decodes.append((n.get("span", {}).get("start", 0), jsast.ident_name(n["id"]), "="))
     decodes.sort()
     names = [d[1] for d in decodes]
-    c.expect(len(decodes) == 5, R, R + "/vlq-fields", jf.loc(top), "five VLQ fields per segment: %s" % names, "the parser decodes %d VLQ fields per segment (%s), the format has five" % (len(decodes), names))
+    c.expect(len(decodes) == 5, R, R + "/vlq-fields", jf.loc(top), "five VLQ fields per segment: %s" % names, "the parser decodes %d VLQ fields per segment (%s), the format has five: a segment that carries a name index has that field read as the generated column of a segment that does not exist, and the columns of the rest of the line shift" % (len(decodes), names))
     if len(decodes) == 5:
         for n, el in full:
             ids = [jsast.ident_name(e) for e in el]
